@@ -62,17 +62,79 @@ THEOREMS = [
     ("disabled_never_limits",
      "forall (checked : bool) (cfg : config) (t0 : N) (h : list event), "
      "decisions checked (disable cfg) t0 h = repeat (Ok Passed) (length h) /\\ state_after checked (disable cfg) t0 h = init t0"),
+    ("register_ops_refines_reference",
+     "forall (checked : bool) (cfg : config) (t0 : N) (ops : list op), "
+     "fits (length ops) -> decisions_ops checked cfg t0 ops = map Ok (reference_ops cfg t0 ops)"),
+    ("register_ops_never_panics",
+     "forall (checked : bool) (cfg : config) (t0 : N) (ops : list op), "
+     "fits (length ops) -> Forall (fun d => exists a, d = Ok a) (decisions_ops checked cfg t0 ops)"),
+    ("reference_ops_agrees_with_reference",
+     "forall (cfg : config) (t0 : N) (h : list event), fits (length h) -> reference_ops cfg t0 (map reg_of h) = reference cfg t0 h"),
+    ("configuration_paths_agree",
+     "forall (checked : bool) (c0 : config) (t0 : N) (pre ops : list op), no_reg pre = true -> "
+     "decisions_ops checked c0 t0 (pre ++ ops) = decisions_ops checked (config_after c0 pre) t0 ops"),
+    ("setters_establish_configuration",
+     "forall (c : config) (m k : N) (r : option N), let target := {| max_requests := m; check_every := k; reset_after := r |} in "
+     "config_after c [SetMax m; SetEvery k; SetReset r] = target /\\ config_after c [SetMax m; SetReset r; SetEvery k] = target /\\ "
+     "config_after c [SetEvery k; SetMax m; SetReset r] = target /\\ config_after c [SetEvery k; SetReset r; SetMax m] = target /\\ "
+     "config_after c [SetReset r; SetMax m; SetEvery k] = target /\\ config_after c [SetReset r; SetEvery k; SetMax m] = target /\\ "
+     "config_after c [Disable] = disable c /\\ config_after c [SetEvery usize_max] = disable c"),
+    ("isolation_ops",
+     "forall (checked : bool) (cfg : config) (t0 : N) (ops1 : list op) (b t : N) (ops2 : list op), "
+     "fits (length (ops1 ++ Reg b t :: ops2)) -> "
+     "counted_ops cfg t0 (ops1 ++ [Reg b t]) b <= max_requests (config_after cfg ops1) -> "
+     "nth_error (decisions_ops checked cfg t0 (ops1 ++ Reg b t :: ops2)) (length (regs ops1)) = Some (Ok Passed)"),
+    ("isolation_own_traffic_ops",
+     "forall (checked : bool) (cfg : config) (t0 : N) (ops1 : list op) (b t : N) (ops2 : list op), "
+     "fits (length (ops1 ++ Reg b t :: ops2)) -> "
+     "calls_of b (regs (ops1 ++ [Reg b t])) <= max_requests (config_after cfg ops1) -> "
+     "nth_error (decisions_ops checked cfg t0 (ops1 ++ Reg b t :: ops2)) (length (regs ops1)) = Some (Ok Passed)"),
+    ("others_never_hurt_ops",
+     "forall (checked : bool) (cfg : config) (t0 : N) (ops1 : list op) (b t : N) (ops2 : list op), "
+     "fits (length (ops1 ++ Reg b t :: ops2)) -> "
+     "exists d, nth_error (decisions_ops checked cfg t0 (ops1 ++ Reg b t :: ops2)) (length (regs ops1)) = Some (Ok d) /\\ "
+     "action_code d <= action_code (ladder (max_requests (config_after cfg ops1)) (calls_of b (regs (ops1 ++ [Reg b t]))))"),
+    ("disabled_ops_never_limits",
+     "forall (checked : bool) (cfg : config) (t0 : N) (ops1 ops2 : list op), no_set_every ops2 = true -> "
+     "decisions_ops checked cfg t0 (ops1 ++ Disable :: ops2) = decisions_ops checked cfg t0 ops1 ++ repeat (Ok Passed) (length (regs ops2)) /\\ "
+     "state_after_ops checked cfg t0 (ops1 ++ Disable :: ops2) = state_after_ops checked cfg t0 ops1"),
+    ("reset_forgets_ops",
+     "forall (checked : bool) (cfg : config) (t0 : N) (ops1 : list op) (a t : N) (ops2 : list op) (R : N), "
+     "let cfg1 := config_after cfg ops1 in reset_after cfg1 = Some R -> check_every cfg1 <> usize_max -> "
+     "check_every cfg1 <= iteration (state_after_ops checked cfg t0 ops1) + 1 -> "
+     "R <= t - win_start (state_after_ops checked cfg t0 ops1) -> "
+     "decisions_ops checked cfg t0 (ops1 ++ Reg a t :: ops2) = decisions_ops checked cfg t0 ops1 ++ Ok Passed :: decisions_ops checked cfg1 t ops2"),
+    ("reset_within_check_every_ops",
+     "forall (checked : bool) (cfg : config) (t0 : N) (ops1 : list op) (h2 : list event) (R : N), "
+     "let cfg1 := config_after cfg ops1 in reset_after cfg1 = Some R -> check_every cfg1 <> usize_max -> "
+     "h2 <> [] -> check_every cfg1 <= N.of_nat (length h2) -> "
+     "Forall (fun e => R <= snd e - win_start (state_after_ops checked cfg t0 ops1)) h2 -> "
+     "exists p a t s, h2 = p ++ (a, t) :: s /\\ "
+     "state_after_ops checked cfg t0 (ops1 ++ map reg_of (p ++ [(a, t)])) = init t /\\ "
+     "decisions_ops checked cfg t0 (ops1 ++ map reg_of (p ++ [(a, t)])) = decisions_ops checked cfg t0 ops1 ++ repeat (Ok Passed) (S (length p)) /\\ "
+     "(p = [] \\/ N.of_nat (length p) < check_every cfg1)"),
+    ("iteration_never_overflows_ops",
+     "forall (checked : bool) (cfg : config) (t0 : N) (ops : list op), "
+     "cfgs_ok cfg ops -> iteration (state_after_ops checked cfg t0 ops) + 1 <= usize_max"),
+    ("listener_status_is_loop_spec",
+     "forall (checked : bool) (sc : sconfig) (t0 : N) (evs : list conn_event), fits (ev_calls_bound evs) -> "
+     "snd (accept_loop checked sc t0 evs) = loop_spec 0 evs /\\ "
+     "(loop_spec 0 evs = Running -> ~ In Refused (fst (accept_loop checked sc t0 evs)))"),
     ("listener_survives",
-     "forall (checked : bool) (cfg : config) (t0 : N) (evs : list conn_event), "
+     "forall (checked : bool) (sc : sconfig) (t0 : N) (evs : list conn_event), "
      "fits (ev_calls_bound evs) -> existsb is_shutdown evs = false -> max_err_run 0 evs <= 100 -> "
-     "snd (accept_loop checked cfg t0 evs) = true /\\ ~ In Refused (fst (accept_loop checked cfg t0 evs))"),
+     "snd (accept_loop checked sc t0 evs) = Running /\\ ~ In Refused (fst (accept_loop checked sc t0 evs))"),
+    ("listener_stops_only_on_shutdown_or_errors",
+     "forall (checked : bool) (sc : sconfig) (t0 : N) (evs : list conn_event), "
+     "fits (ev_calls_bound evs) -> snd (accept_loop checked sc t0 evs) <> Running -> "
+     "existsb is_shutdown evs = true \\/ 100 < max_err_run 0 evs"),
     ("server_refines_reference",
-     "forall (checked : bool) (cfg : config) (t0 : N) (cs : list connection), "
-     "fits (calls_bound cs) -> accept_loop checked cfg t0 (map conn_of cs) = (spec_server cfg t0 cs, true)"),
+     "forall (checked : bool) (sc : sconfig) (t0 : N) (cs : list connection), "
+     "fits (calls_bound cs) -> accept_loop checked sc t0 (map conn_of cs) = (spec_server sc t0 cs, Running)"),
     ("listener_dies_063_refuted",
-     "let cfg := {| max_requests := 0; check_every := 1; reset_after := Some 10000 |} in "
-     "accept_loop_063 true cfg 0 [Conn 1 0 []; Conn 2 1 [1]] = ([Served [] true; Refused], false) /\\ "
-     "accept_loop true cfg 0 [Conn 1 0 []; Conn 2 1 [1]] = ([Served [] true; Served [] true], true)"),
+     "let sc := same_limiter {| max_requests := 0; check_every := 1; reset_after := Some 10000 |} in "
+     "accept_loop_063 true sc 0 [Conn 1 0 []; Conn 2 1 [1]] = ([Served [] true; Refused], ReturnedOk) /\\ "
+     "accept_loop true sc 0 [Conn 1 0 []; Conn 2 1 [1]] = ([Served [] true; Served [] true], Running)"),
 ]
 
 RULE = ("(1) direct calls LimitManager::new(max, check_every, reset_seconds) + register(addr) per event of a generated sequential history "
@@ -82,40 +144,63 @@ RULE = ("(1) direct calls LimitManager::new(max, check_every, reset_seconds) + r
         "{0,1,2,5,...}, check_every in {0,1,2,3,usize::MAX-1,usize::MAX}, reset_seconds in {0, negative, 0.6 s, 1 h, +inf, NaN}; boundary "
         "values of max around usize::MAX/3 and usize::MAX. Histories with reset 0.6 s contain real sleeps (0.1 s / 0.9 s) scheduled so that the "
         "age of the window is never within 0.3 s of the reset time; a run whose real time drifted more than 0.25 s from the schedule is "
-        "repeated and otherwise counted as not comparable (out_of_domain). (2) availability: a real server (RunConfig::execute, IPv4 "
-        "loopback port, one host whose limiter is the configured one) receives sequential connections bound to 127.0.0.1..4, each making "
-        "1..n requests; the answers (404 / 429 / closed without answer / connection refused) and whether the port still accepts at the end "
-        "are compared with the model of the accept loop and with the reference server that never stops accepting. distinct_nontrivial counts "
+        "repeated and otherwise counted as not comparable (out_of_domain). "
+        "(1b) operation histories (component limiter.ops): a manager obtained by LimitManager::new(..), LimitManager::default() or as the "
+        "limiter field of a new Host, driven by register calls interleaved with set_max_requests / set_check_every / set_reset_seconds / "
+        "disable at any position: every configuration reached through every order of the setters from each constructor and then one "
+        "address across all rungs; maximum raised / lowered in the middle of a window; check_every raised / lowered / disabled / re-enabled; "
+        "reset time changed (also with real sleeps); exhaustive over all operation sequences of length <= 4 (quick) / 5 (thorough) over "
+        "{register a, register b, max:=0, max:=1, every:=1, every:=2, disable} followed by 4 calls; random interleavings. Compared with the "
+        "Coq model, with the Coq reference for operation histories, and with an independent reference written in Python (ladder of the "
+        "current max on the per-address count of the current window). "
+        "(2) availability: a real server (RunConfig::execute on a loopback port; IPv4-only, the default two listeners, or IPv6-only where IPv4 "
+        "peers arrive v4-mapped at the [::] listener; one host; host "
+        "limiter configured by assignment of LimitManager::new or by the setters on the Host's own limiter; pre-host limiter = the clone "
+        "taken by insert, a clone with other settings, or a separate manager via set_pre_host_limiter) receives sequential connections bound "
+        "to 127.0.0.1..4, each making 1..n requests; the answers (200 / 429 / closed without answer / connection refused) and whether the "
+        "port still accepts at the end are compared with the model of the accept loop, with the reference server that never stops accepting "
+        "(Coq) and with the Python reference. Floods: an address at the drop level makes 1, 3*max+2, 99, 100, 101, 150, 300, 700 (thorough: also "
+        "102, 200, 201, 202, 400, 1000, 2500) connections in a row (all dropped at accept), then 127.0.0.2 must be accepted and answered 200, and after "
+        "the reset interval (3 s, real time) the flooder itself is served again. distinct_nontrivial counts "
         "inputs whose outcome contains at least one Send/Drop decision or one 429/cut/refused connection")
 ASSUMPTIONS = [
-    "sequential histories: the calls to register are totally ordered (the code uses Relaxed/Release atomics and a concurrent map; "
-    "concurrent interleavings of register are outside the model, as the property's last sentence says)",
+    "sequential histories: the calls to register (and to the &mut self setters) are totally ordered (the code uses Relaxed/Release atomics "
+    "and a concurrent map; concurrent interleavings of register are outside the model, as the property's last sentence says)",
     "one clock reading per call: register reads SystemTime::now() for the comparison and once more in update_time; the model uses the "
     "same reading for both. reset_seconds is compared in f64 seconds by the code and in integer clock units by the model (rounding of "
-    "as_secs_f64 is not modelled; the correspondence keeps 0.3 s margins)",
+    "as_secs_f64 is not modelled; the correspondence keeps 0.3 s margins, 1.4 s on the real server)",
     "usize is 64 bit. The theorems about decisions assume histories of at most (2^64-1)/3 calls (hypothesis `fits`): below that bound "
     "neither `*count += 1` nor `max_requests * 3` can overflow whatever the configuration (proved, register_never_panics); beyond it "
     "`max_requests * 3` wraps (release) or panics (debug) when max_requests > usize::MAX/3 and a count exceeds it",
-    "availability: one host per collection, so the pre-host limiter consulted by the accept loop shares its counters with the host "
-    "limiter consulted per request (CollectionBuilder::insert clones it); accept errors and shutdown requests are events of the model "
-    "but cannot be provoked on a loopback socket and are not part of the differential run",
+    "availability: one host per collection (the host limiter consulted per request is that host's); the hosts of a built collection are "
+    "immutable, so the server's two configurations are fixed while it runs (configuration changes in the middle of a history are exercised "
+    "on the manager directly). Every listener (IPv4/IPv6, TCP/QUIC) runs its own instance of the modelled loop with its own failure "
+    "counter; calls of the other instances on the shared limiters are events (`Other`) of the model. Accept errors, QUIC time-outs and "
+    "shutdown requests are events of the model and of the theorems but cannot be provoked on a loopback socket and are not part of the "
+    "differential run",
 ]
-TRUSTED = ["modelled: src/limiting.rs LimitManager::{new, disable, register}; src/lib.rs accept (limiter branch, failure counter, "
-           "shutdown) and handle_connection (limiter branch of the request loop); src/host.rs CollectionBuilder::insert (shared limiter)"]
+TRUSTED = ["modelled: src/limiting.rs LimitManager::{new, default, set_max_requests, set_check_every, set_reset_seconds, disable, register}; "
+           "src/lib.rs accept (every arm of the loop: shutdown, TCP/QUIC accept errors with fails_without_accepting and its threshold, QUIC "
+           "time-out, reset of the counter, pre-host limiter, continue/return) and handle_connection (limiter branch of the request loop); "
+           "src/host.rs Host::limiter (Default), CollectionBuilder::{insert, set_pre_host_limiter} (shared / separate pre-host limiter)"]
 EXHAUSTIVE = False
+R_SRV = 3000                # ms: reset time crossed by real-server runs
+SRV_WAIT = R_SRV + 1500     # nominal wait that crosses it (the harness is never early and at most 1.4 s late)
+
+
+def xreset(reset):
+    """reset: ms (int >= 0), 'inf', 'nan' or a negative number of ms."""
+    if reset == "inf":
+        return xl(xn(1), xn(0))
+    if reset == "nan":
+        return xl(xn(2), xn(0))
+    if reset < 0:
+        return xl(xn(3), xn(-reset))
+    return xl(xn(0), xn(reset))
 
 
 def cfg(mx, ce, reset):
-    """reset: ms (int >= 0), 'inf', 'nan' or a negative number of ms."""
-    if reset == "inf":
-        r = xl(xn(1), xn(0))
-    elif reset == "nan":
-        r = xl(xn(2), xn(0))
-    elif reset < 0:
-        r = xl(xn(3), xn(-reset))
-    else:
-        r = xl(xn(0), xn(reset))
-    return xl(xn(mx), xn(ce), r)
+    return xl(xn(mx), xn(ce), xreset(reset))
 
 
 def reg(mx, ce, reset, events, kind, profiles=PROFILES):
@@ -126,9 +211,46 @@ def reg(mx, ce, reset, events, kind, profiles=PROFILES):
     return out
 
 
-def srv(mx, ce, reset, conns, kind, profile="dev"):
-    x = xl(xbool(profile == "dev"), cfg(mx, ce, reset), xlist([xl(xn(a), xn(dt), xn(n)) for a, dt, n in conns]))
-    return [Case("limiter.server", x, "limiter.server_spec", {"kind": kind}, profile)]
+# ---- operation histories ---------------------------------------------------------------------
+# ctor: ("new", mx, ce, reset) | ("default",) | ("host",)
+# op:   ("reg", addr, dt) | ("max", m) | ("every", k) | ("reset", r) | ("disable",)
+def xctor(c):
+    if c[0] == "new":
+        return xl(xn(0), cfg(c[1], c[2], c[3]))
+    return xl(xn(1)) if c[0] == "default" else xl(xn(2))
+
+
+def xop(o):
+    if o[0] == "reg":
+        return xl(xn(0), xn(o[1]), xn(o[2]))
+    if o[0] == "max":
+        return xl(xn(1), xn(o[1]))
+    if o[0] == "every":
+        return xl(xn(2), xn(o[1]))
+    if o[0] == "reset":
+        return xl(xn(3), xreset(o[1]))
+    return xl(xn(4))
+
+
+def opcase(ctor, ops, kind, profiles=PROFILES):
+    out = []
+    for prof in profiles:
+        x = xl(xbool(prof == "dev"), xctor(ctor), xlist([xop(o) for o in ops]))
+        out.append(Case("limiter.ops", x, "limiter.ops_reference", {"kind": kind, "ctor": ctor, "ops": ops}, prof))
+    return out
+
+
+# ---- server ---------------------------------------------------------------------------------
+# pre: None | ("own", mx, ce, reset) | ("clone", mx, ce, reset);  bind: 0 IPv4 only, 1 dual stack
+def srv(mx, ce, reset, conns, kind, profile="dev", path=0, pre=None, bind=0):
+    if pre is None:
+        xp = xl()
+    else:
+        xp = xl(xn(0 if pre[0] == "own" else 1), cfg(pre[1], pre[2], pre[3]))
+    sconf = xl(xn(path), cfg(mx, ce, reset), xp, xn(bind))
+    xc = [xl(xn(c[0]), xn(c[1]), xn(c[2])) if len(c) == 3 else xl(xn(c[0]), xn(c[1]), xn(c[2]), xn(c[3])) for c in conns]
+    meta = {"kind": kind, "host": (mx, ce, reset), "pre": pre, "conns": conns}
+    return [Case("limiter.server", xl(xbool(profile == "dev"), sconf, xlist(xc)), "limiter.server_spec", meta, profile)]
 
 
 ADDRS = [0x7F000001, 0x7F000002, 0x0A000001, 2**127 + 5, 0, 2**32 - 1, 2**32, 2**128 - 1]
@@ -162,10 +284,178 @@ def drop_then_other(mx, ce_one=True):
     return [(0, 0, 3 * mx + 4), (0, 0, 1), (1, 0, 1), (0, 0, 1), (2, 0, 2), (1, 0, 1)]
 
 
+def flood(mx, n, reset_wait):
+    """Address 0 reaches the drop level, then makes n connections in a row (all dropped at accept); the bystander
+    (127.0.0.2) must be served; after the reset interval the flooder is served again, and the bystander too."""
+    conns = [(0, 0, 3 * mx + 4), (0, 0, 1, n), (1, 0, 1)]
+    if reset_wait:
+        conns += [(0, reset_wait, 2), (1, 0, 1)]
+    return conns
+
+
+SETTER_ORDERS = list(itertools.permutations(("max", "every", "reset")))
+OTHER_CTORS = [("default",), ("host",), ("new", 10, 10, 10000), ("new", 0, USIZE_MAX, "nan"), ("new", 7, 1, 0)]
+
+
+def path_ops(ctor, order, mx, ce, reset):
+    vals = {"max": mx, "every": ce, "reset": reset}
+    return [(k, vals[k]) for k in order]
+
+
+def gen_ops(rng, quick):
+    cases = []
+    # ---- corpus: the missed change (drop threshold cached at construction), first --------------
+    cases += opcase(("new", 10, 1, HOUR), [("max", 2)] + [("reg", 1, 0)] * 34, "ops-corpus")
+    cases += opcase(("host",), [("every", 1), ("reset", HOUR), ("max", 20)] + [("reg", 1, 0)] * 64, "ops-corpus")
+    cases += opcase(("default",), [("max", 2), ("every", 1), ("reset", "inf")] + [("reg", 7, 0)] * 8 + [("max", 4)]
+                    + [("reg", 7, 0)] * 6 + [("reg", 9, 0)], "ops-corpus")
+    # ---- every constructor x every order of the setters -> every configuration, one address over all rungs -------
+    i = 0
+    for mx in (0, 1, 2, 5, 12, 30):
+        for ce in (1, 2, 3):
+            for reset in (HOUR, "inf", 0):
+                for ctor in OTHER_CTORS:
+                    order = SETTER_ORDERS[i % 6]
+                    i += 1
+                    n = needed(mx if mx < 7 else 0, ce, 1) + (ce * (3 * mx + 3) if mx >= 7 else 3)
+                    tail = [("reg", ADDRS[0], 0)] * n + [("reg", ADDRS[1], 0)] * ce
+                    cases += opcase(ctor, path_ops(ctor, order, mx, ce, reset) + tail, "ops-config-path",
+                                    (PROFILES[i % 2],) if quick else PROFILES)
+    # only some of the setters: the rest stays as constructed (Default: 10, 10, 10 s)
+    for ctor in (("default",), ("host",)):
+        for sub in (("max",), ("every",), ("reset",), ("max", "every"), ("every", "reset"), ("max", "reset"), ()):
+            vals = {"max": 1, "every": 2, "reset": HOUR}
+            pre = [(k, vals[k]) for k in sub]
+            ce = 2 if "every" in sub else 10
+            mx = 1 if "max" in sub else 10
+            cases += opcase(ctor, pre + [("reg", 5, 0)] * (ce * (3 * mx + 3)), "ops-config-partial")
+    # ---- maximum changed in the middle of a window ------------------------------------------------
+    for m0 in (0, 1, 2, 5, 10):
+        for m1 in (0, 1, 2, 3, 6, 20, 40):
+            for ce in (1, 2):
+                k = rng.randrange(0, 3 * m0 + 3)
+                n2 = 3 * max(m0, m1) + 4
+                for ctor, pre in ((("new", m0, ce, HOUR), []), (("host",), [("max", m0), ("every", ce), ("reset", HOUR)])):
+                    ops = pre + [("reg", 1, 0)] * (k * ce) + [("max", m1)] + [("reg", 1, 0)] * (n2 * ce) + [("reg", 2, 0)] * ce
+                    cases += opcase(ctor, ops, "ops-max-mid", (PROFILES[(m0 + m1 + ce) % 2],))
+    # ---- check_every changed / disabled / re-enabled in the middle ----------------------------------
+    for k0 in (1, 2, 3, 5, 10, USIZE_MAX):
+        for k1 in (0, 1, 2, 3, 4, USIZE_MAX - 1, USIZE_MAX):
+            for before in (0, 1, 2, 4):
+                ops = [("reg", 1, 0)] * before + [("every", k1)] + [("reg", 1, 0)] * 9 + [("disable",)] + [("reg", 1, 0)] * 3 \
+                      + [("every", k0)] + [("reg", 1, 0)] * 7
+                cases += opcase(("new", 1, k0, HOUR), ops, "ops-every-mid", (PROFILES[(before + k1) % 2],))
+    # ---- reset time changed in the middle (never / always reached, no sleeping) ----------------------
+    for r0 in (HOUR, 0, "inf", "nan", -1):
+        for r1 in (HOUR, 0, "inf", -5):
+            ops = [("reg", 1, 0)] * 5 + [("reset", r1)] + [("reg", 1, 0)] * 5 + [("reset", r0)] + [("reg", 1, 0)] * 5
+            cases += opcase(("new", 1, 1, r0), ops, "ops-reset-mid", ("dev",) if quick else PROFILES)
+    # ---- exhaustive small alphabet -------------------------------------------------------------------
+    alpha = [("reg", 1, 0), ("reg", 2, 0), ("max", 0), ("max", 1), ("every", 1), ("every", 2), ("disable",)]
+    tail = [("reg", 1, 0)] * 4
+    j = 0
+    for n in range(0, 5 if quick else 6):
+        for seq in itertools.product(alpha, repeat=n):
+            j += 1
+            cases += opcase(("new", 1, 2, HOUR) if j % 3 else ("host",), list(seq) + tail, "ops-exhaustive-small", (PROFILES[j % 2],))
+    # ---- random interleavings ----------------------------------------------------------------------
+    for _ in range(600 if quick else 12000):
+        ctor = rng.choice(OTHER_CTORS + [("new", rng.randrange(0, 6), rng.choice([1, 1, 2, 3]), HOUR)] * 3)
+        naddr = rng.randrange(1, 4)
+        addrs = rng.sample(ADDRS, naddr)
+        ops = []
+        if ctor[0] != "new" or rng.random() < 0.3:
+            ops += path_ops(ctor, rng.choice(SETTER_ORDERS), rng.randrange(0, 6), rng.choice([1, 1, 2, 3]), rng.choice([HOUR, HOUR, "inf"]))
+        for _ in range(rng.randrange(10, 70)):
+            r = rng.random()
+            if r < 0.82:
+                ops.append(("reg", rng.choice(addrs), 0))
+            elif r < 0.90:
+                ops.append(("max", rng.choice([0, 1, 2, 3, 5, 8, rng.randrange(0, 12)])))
+            elif r < 0.95:
+                ops.append(("every", rng.choice([0, 1, 1, 2, 3, USIZE_MAX])))
+            elif r < 0.98:
+                ops.append(("reset", rng.choice([HOUR, HOUR, 0, "inf", "nan", -1])))
+            else:
+                ops.append(("disable",))
+        cases += opcase(ctor, ops, "ops-random", (rng.choice(PROFILES),))
+    # ---- reset time changed, in real time ---------------------------------------------------------------
+    for i in range(6 if quick else 40):
+        mx = rng.choice([0, 1, 2])
+        ce = rng.choice([1, 1, 2])
+        ev = rand_history(rng, mx, ce, rng.randrange(1, 3), timed=True, longs=rng.randrange(1, 3))
+        ops = [("reg", a, dt) for a, dt in ev]
+        for _ in range(rng.randrange(1, 4)):
+            ops.insert(rng.randrange(len(ops) + 1), ("reset", rng.choice([R_SHORT, HOUR, R_SHORT, 0])))
+        if rng.random() < 0.5:
+            ops.insert(rng.randrange(len(ops) + 1), ("max", rng.choice([0, 1, 3])))
+        cases += opcase(("new", mx, ce, rng.choice([R_SHORT, HOUR])), ops, "ops-timed-reset", (PROFILES[i % 2],))
+    return cases
+
+
+def gen_server(rng, quick):
+    cases = []
+    k = 0
+    # ---- floods around every constant of the accept loop; IPv4-only, both listeners, IPv6-only (v4-mapped peers) ----
+    lengths = [1, 8, 99, 100, 101, 150, 300, 700] + ([] if quick else [102, 200, 201, 202, 400, 1000, 2500])
+    for bind in (0, 1, 2):
+        for n in lengths:
+            if bind == 2 and quick and n not in (8, 101, 300):
+                continue
+            mx = 2
+            n = 3 * mx + 2 if n == 8 else n
+            k += 1
+            if n >= 700:      # too long to stay clear of a 3 s reset time on a loaded machine: no reset in these
+                cases += srv(mx, 1, HOUR, flood(mx, n, 0), "server-flood", PROFILES[k % 2], path=k % 2, bind=bind)
+            else:
+                cases += srv(mx, 1, R_SRV, flood(mx, n, SRV_WAIT), "server-flood", PROFILES[k % 2], path=k % 2, bind=bind)
+    # one address walks through the whole ladder with one-request connections (passed, 429 level, drop level), then the bystander
+    for bind, mx in ((0, 30), (1, 45)) if quick else ((0, 30), (1, 45), (2, 30), (0, 120), (1, 200)):
+        k += 1
+        cases += srv(mx, 1, HOUR, [(0, 0, 1, (3 * mx) // 2 + 25), (1, 0, 1), (0, 0, 2)], "server-ladder-walk", PROFILES[k % 2], path=k % 2, bind=bind)
+    if not quick:
+        for bind in (0, 1):
+            for n in (101, 250):
+                for mx in (0, 1, 5):
+                    k += 1
+                    cases += srv(mx, 1, HOUR, flood(mx, n, 0), "server-flood", PROFILES[k % 2], path=k % 2, bind=bind)
+    # ---- every way to configure the two limiters -----------------------------------------------------
+    for mx in ((1, 2) if quick else (0, 1, 2, 5)):
+        cases += srv(mx, 1, HOUR, drop_then_other(mx), "server-drop-then-others")
+        cases += srv(mx, 1, HOUR, drop_then_other(mx), "server-drop-then-others", "nochk", path=1, bind=1)
+    # the missed class on a Host: Default (10, 10, 10 s) tuned with the setters, driven past both rungs
+    cases += srv(2, 1, HOUR, [(0, 0, 40), (0, 0, 1), (1, 0, 1)], "server-setters", "dev", path=1)
+    cases += srv(20, 1, HOUR, [(0, 0, 70), (0, 0, 1), (1, 0, 1)], "server-setters", "nochk", path=1)
+    # pre-host limiter installed separately (own counters) or as a clone with other settings (shared counters)
+    cases += srv(2, 1, HOUR, [(0, 0, 3), (0, 0, 3), (0, 0, 3), (1, 0, 2), (0, 0, 1)], "server-pre-limiter", "dev", pre=("own", 1, 1, HOUR))
+    cases += srv(5, 1, HOUR, [(0, 0, 2)] * 5 + [(1, 0, 2), (0, 0, 1)], "server-pre-limiter", "nochk", path=1, pre=("own", 0, 2, HOUR), bind=1)
+    cases += srv(2, 1, HOUR, [(0, 0, 2), (0, 0, 2), (0, 0, 9), (1, 0, 2), (0, 0, 1)], "server-pre-limiter", "dev", pre=("clone", 0, 1, HOUR))
+    cases += srv(1, 2, HOUR, [(0, 0, 3)] * 4 + [(1, 0, 2), (0, 0, 1)], "server-pre-limiter", "nochk", path=1, pre=("clone", 3, 2, HOUR))
+    cases += srv(1, 1, HOUR, [(0, 0, 6), (0, 0, 2), (1, 0, 2)], "server-pre-limiter", "dev", pre=("own", 1, USIZE_MAX, HOUR))
+    cases += srv(1, 1, 0, [(0, 0, 6), (0, 0, 2), (1, 0, 2)], "server-reset-always")
+    cases += srv(1, USIZE_MAX, HOUR, [(0, 0, 12), (0, 0, 2), (1, 0, 2)], "server-disabled", path=1)
+    for i in range(8 if quick else 160):
+        mx = rng.choice([0, 1, 2, 2, 5])
+        ce = rng.choice([1, 1, 1, 2, 3, USIZE_MAX])
+        reset = rng.choice([HOUR, HOUR, HOUR, "inf", 0])
+        naddr = rng.randrange(1, 5)
+        conns = []
+        for _ in range(rng.randrange(3, 9 if quick else 14)):
+            a = rng.choices(range(naddr), [5, 2, 1, 1][:naddr])[0]
+            c = (a, 0, rng.choice([1, 1, 2, 3, 3 * mx + 3, rng.randrange(1, 3 * mx + 6)]))
+            conns.append(c + (rng.randrange(2, 12),) if rng.random() < 0.15 else c)
+        pre = rng.choice([None, None, None, ("own", rng.randrange(0, 4), rng.choice([1, 2]), HOUR),
+                          ("clone", rng.randrange(0, 4), rng.choice([1, 2]), rng.choice([HOUR, "inf"]))])
+        cases += srv(mx, ce, reset, conns, "server-random", PROFILES[i % 2], path=rng.randrange(2), pre=pre, bind=rng.randrange(3))
+    return cases
+
+
 def generate(rng, tier):
     quick = tier == "quick"
     cases = []
-    # ---- corpus: the finding of this property, first ---------------------------------------
+    # ---- the real-server runs that wait for the reset interval first: they spread over the shards -------
+    cases += gen_server(rng, quick)
+    # ---- corpus: the finding of this property ------------------------------------------------------
     cases += srv(2, 1, HOUR, [(0, 0, 8), (0, 0, 1), (1, 0, 1), (1, 0, 1)], "corpus")
     cases += srv(0, 1, HOUR, [(0, 0, 1), (1, 0, 1)], "corpus")
     cases += reg(1, 1, HOUR, [(1, 0)] * 5 + [(2, 0)], "corpus")
@@ -174,6 +464,12 @@ def generate(rng, tier):
               xl(xbool(True), cfg(USIZE_MAX + 1, 1, 0), xl()), xl(xbool(True), cfg(1, USIZE_MAX + 1, 0), xl()),
               xl(xbool(True), cfg(1, 1, 0), xl(xl(xn(1)))), xl(xn(7), cfg(1, 1, 0), xl())]:
         cases.append(Case("limiter.register", x, None, {"kind": "malformed"}, "dev"))
+    for x in [xl(xbool(True), xl(xn(3)), xl()), xl(xbool(True), xl(xn(1)), xl(xl(xn(1), xn(USIZE_MAX + 1)))),
+              xl(xbool(True), xl(xn(0), cfg(1, 1, 0)), xl(xl(xn(5)))), xl(xbool(True), xl(xn(1)), xl(xl(xn(3), xl(xn(9), xn(0)))))]:
+        cases.append(Case("limiter.ops", x, None, {"kind": "malformed"}, "dev"))
+    cases.append(Case("limiter.server", xl(xbool(True), xl(xn(2), cfg(1, 1, 0), xl(), xn(0)), xl()), None, {"kind": "malformed"}, "dev"))
+    # ---- operation histories ----------------------------------------------------------------
+    cases += gen_ops(rng, quick)
     # ---- exhaustive small: all histories over two addresses up to length 7 -----------------
     for mx in (0, 1, 2, 5):
         for ce in (1, 2, 3, USIZE_MAX):
@@ -192,6 +488,7 @@ def generate(rng, tier):
     for mx in (third - 1, third, third + 1, USIZE_MAX - 1, USIZE_MAX, 2**63, 2**32):
         for ce in (1, 2):
             cases += reg(mx, ce, HOUR, [(1, 0)] * 12 + [(2, 0)] * 3, "boundary-config")
+            cases += opcase(("default",), [("max", mx), ("every", ce), ("reset", HOUR)] + [("reg", 1, 0)] * 12, "boundary-config", ("dev",))
     # ---- random histories, 1-4 addresses, no sleeping --------------------------------------
     nrand = 1200 if quick else 30000
     for _ in range(nrand):
@@ -208,27 +505,147 @@ def generate(rng, tier):
         naddr = rng.randrange(1, 4)
         cases += reg(mx, ce, R_SHORT, rand_history(rng, mx, ce, naddr, timed=True, longs=rng.randrange(1, 3 if quick else 5)),
                      "timed-reset", (PROFILES[i % 2],))
-    # ---- availability: real server ----------------------------------------------------------
-    for mx in ((1, 2) if quick else (0, 1, 2, 5)):
-        cases += srv(mx, 1, HOUR, drop_then_other(mx), "server-drop-then-others")
-    cases += srv(1, 1, 0, [(0, 0, 6), (0, 0, 2), (1, 0, 2)], "server-reset-always")
-    cases += srv(1, USIZE_MAX, HOUR, [(0, 0, 12), (0, 0, 2), (1, 0, 2)], "server-disabled")
-    nsrv = 6 if quick else 120
-    for i in range(nsrv):
-        mx = rng.choice([0, 1, 2, 2, 5])
-        ce = rng.choice([1, 1, 1, 2, 3, USIZE_MAX])
-        reset = rng.choice([HOUR, HOUR, HOUR, "inf", 0])
-        naddr = rng.randrange(1, 5)
-        conns = []
-        for _ in range(rng.randrange(3, 9 if quick else 14)):
-            a = rng.choices(range(naddr), [5, 2, 1, 1][:naddr])[0]
-            conns.append((a, 0, rng.choice([1, 1, 2, 3, 3 * mx + 3, rng.randrange(1, 3 * mx + 6)])))
-        cases += srv(mx, ce, reset, conns, "server-random", PROFILES[i % 2])
     return cases
 
 
+# ---- oracles that use neither the Coq model nor its extraction ------------------------------------
+def _norm_reset(r):
+    if r in ("inf", "nan"):
+        return None
+    return 0 if r < 0 else r
+
+
+class PyLimiter:
+    """The obvious reference counter, once more, in Python: counts per address in the current window, every
+    check_every-th call since the last counted one is counted, ladder of the CURRENT max."""
+
+    def __init__(self, mx, ce, reset):
+        self.mx, self.ce, self.reset = mx, ce, _norm_reset(reset)
+        self.since, self.start, self.counted = 0, 0, {}
+
+    def register(self, a, now, cfgof=None):
+        c = cfgof or self
+        if c.ce == USIZE_MAX:
+            return 0
+        if self.since + 1 < c.ce:
+            self.since += 1
+            return 0
+        self.since = 0
+        if c.reset is not None and now - self.start >= c.reset:
+            self.start, self.counted = now, {}
+            return 0
+        n = self.counted[a] = self.counted.get(a, 0) + 1
+        return 0 if n <= c.mx else (1 if n <= 3 * c.mx else 2)
+
+
+def py_ops(ctor, ops):
+    m = PyLimiter(*ctor[1:]) if ctor[0] == "new" else PyLimiter(10, 10, 10000)
+    now, out = 0, []
+    for o in ops:
+        if o[0] == "reg":
+            now += o[2]
+            out.append(m.register(o[1], now))
+        elif o[0] == "max":
+            m.mx = o[1]
+        elif o[0] == "every":
+            m.ce = o[1]
+        elif o[0] == "reset":
+            m.reset = _norm_reset(o[1])
+        else:
+            m.ce = USIZE_MAX
+    return out
+
+
+class _Cfg:
+    def __init__(self, mx, ce, reset):
+        self.mx, self.ce, self.reset = mx, ce, _norm_reset(reset)
+
+
+def py_server(host, pre, conns):
+    """Expected result per connection: ('served', [statuses], cut).  Nobody is ever refused."""
+    hl = PyLimiter(*host)
+    hc = _Cfg(*host)
+    if pre is None:
+        pl, pc = hl, hc
+    elif pre[0] == "clone":
+        pl, pc = hl, _Cfg(*pre[1:])
+    else:
+        pl, pc = PyLimiter(*pre[1:]), _Cfg(*pre[1:])
+    now, out = 0, []
+    for c in conns:
+        a, dt, nreq = c[0], c[1], c[2]
+        now += dt
+        for _ in range(c[3] if len(c) > 3 else 1):
+            if pl.register(a, now, pc) == 2:
+                out.append(([], 1))
+                continue
+            st, cut = [], 0
+            for _ in range(nreq):
+                d = hl.register(a, now, hc)
+                if d == 2:
+                    cut = 1
+                    break
+                st.append(200 if d == 0 else 429)
+            out.append((st, cut))
+    return out
+
+
+def _parse_server(i):
+    from kv import xparse
+    v = xparse(i)
+
+    def num(t):
+        return t[1]
+    # kv.xparse returns nested ('N', n) / ('L', [...]) / ('B', bytes)
+    res = []
+    for r in v[1][0][1]:
+        f = r[1]
+        if num(f[0]) == 3:
+            res.append("refused")
+        else:
+            res.append(([num(t) for t in f[1][1]], num(f[2])))
+    return res, num(v[1][1])
+
+
+def extra_oracle(c, i):
+    kind = c.meta.get("kind")
+    if c.comp == "limiter.ops" and "ops" in c.meta:
+        want = "(L" + "".join(" (N %d)" % d for d in py_ops(c.meta["ctor"], c.meta["ops"])) + ")"
+        if i != want:
+            return ("decisions differ from the reference ladder computed from the configuration current at each call: "
+                    "expected %s" % want[:400])
+        return None
+    if c.comp == "limiter.server" and "conns" in c.meta:
+        try:
+            got, alive = _parse_server(i)
+        except Exception as e:        # noqa: BLE001
+            return "unreadable server outcome: %r" % (e,)
+        want = py_server(c.meta["host"], c.meta["pre"], c.meta["conns"])
+        # (a) availability, stated without any counter: nobody is refused, the port accepts at the end
+        for n, g in enumerate(got):
+            if g == "refused":
+                return "connection #%d was refused: the listener stopped accepting" % (n + 1)
+        if alive != 1:
+            return "nobody accepts on the port at the end of the history"
+        # (b) the bystander: an address none of whose calls so far exceeds any configured maximum is served 200 every time
+        flat = [(cc[0], cc[2]) for cc in c.meta["conns"] for _ in range(cc[3] if len(cc) > 3 else 1)]
+        limit = min([c.meta["host"][0]] + ([c.meta["pre"][1]] if c.meta["pre"] else []))
+        calls = {}
+        for n, ((a, nreq), g) in enumerate(zip(flat, got)):
+            calls[a] = calls.get(a, 0) + 1 + nreq
+            if calls[a] <= limit and g != ([200] * nreq, 0):
+                return ("bystander not served: connection #%d of 127.0.0.%d (its %d calls so far are within every maximum, %d) got %r"
+                        % (n + 1, a + 1, calls[a], limit, g))
+        # (c) every answer equals the reference ladder
+        if len(got) != len(want) or any(g != w for g, w in zip(got, want)):
+            n = next((n for n, (g, w) in enumerate(zip(got, want)) if g != w), min(len(got), len(want)))
+            return "connection #%d: got %r, the reference ladder of the current configuration gives %r" % (
+                n + 1, got[n] if n < len(got) else None, want[n] if n < len(want) else None)
+    return None
+
+
 def signature(c, m):
-    if c.comp == "limiter.register":
+    if c.comp in ("limiter.register", "limiter.ops"):
         return "limited" if ("(N 1)" in m or "(N 2)" in m) and c.meta.get("kind") != "malformed" else None
     return "limited" if ("(N 429)" in m or "(N 3)" in m or "(N 1))" in m) else None
 
@@ -240,22 +657,32 @@ def directed(rng, mismatches):
             for reset in (HOUR, 0, "inf"):
                 cases += reg(mx, ce, reset, [(1, 0)] * (needed(mx, ce, 1) + 4), "directed")
                 cases += reg(mx, ce, reset, [(1 + i % 2, 0) for i in range(2 * needed(mx, ce, 1) + 4)], "directed")
+                cases += opcase(("host",), [("max", mx), ("every", ce), ("reset", reset)] + [("reg", 1, 0)] * (needed(mx, ce, 1) + 4),
+                                "directed", ("dev",))
     for mx in (0, 1, 2, 3):
         for ce in (1, 2):
             cases += srv(mx, ce, HOUR, drop_then_other(mx), "directed-server")
-            cases += srv(mx, ce, HOUR, [(0, 0, 1)] * (3 * mx + 4) * ce + [(1, 0, 1), (2, 0, 1)], "directed-server")
+            cases += srv(mx, ce, HOUR, [(0, 0, 1)] * (3 * mx + 4) * ce + [(1, 0, 1), (2, 0, 1)], "directed-server", path=1)
+            cases += srv(mx, ce, HOUR, flood(mx, 120 * ce, 0), "directed-server", bind=ce - 1)
     return cases
 
 
-LEVEL_TEXT = ("Machine-checked Coq theorems over a transcription of LimitManager::register and of the accept / request loops that act "
-              "on its verdict: for every sequential history and every configuration the decisions equal those of the reference counter "
-              "(every check_every-th call overall is sampled; a sampled call after the reset time starts a new window and is not counted; "
-              "the others are counted per address and answered by the ladder <= max / <= 3*max / beyond); an address whose counted requests "
-              "stay <= max always passes whatever others do; a sampled call after the reset time leaves exactly the state of a new limiter; a "
-              "disabled limiter never limits; the accept loop is alive after every event list without shutdown request and without 101 "
-              "consecutive accept errors. The model is tied to the repository on every run by a differential run of the real "
-              "LimitManager and of a real server on a loopback port.")
+LEVEL_TEXT = ("Machine-checked Coq theorems over a transcription of LimitManager (configuration + counters; new, Default, the setters, "
+              "disable, register) and of the accept / request loops that act on its verdict: for every sequential history of register "
+              "calls and configuration changes, from every first configuration, the decisions equal those of the reference counter computed "
+              "from the configuration current at each call (a call is counted when it is at least the check_every-th since the last counted "
+              "one - for a constant configuration: every check_every-th call overall, proved equal; a due call after the current reset time "
+              "starts a new window and is not counted; the others are counted per address and answered by the ladder <= max / <= 3*max / "
+              "beyond of the current max); setters never touch the counters and every order of them from every constructor gives the limiter "
+              "of new(..); an address whose counted requests stay <= the current max always passes whatever others do; a due call after the "
+              "reset time leaves exactly the state of a new limiter; a disabled limiter never limits until re-enabled; the state of the accept "
+              "loop (running / returned / failed) after every event list is a function of the kinds of the accept events alone (shutdown "
+              "request, more than 100 consecutive accept errors) - no address, request count, verdict or configuration occurs in it - so the "
+              "loop is alive after every event list without those, nobody is refused, and it ends in no other way. The model is tied to the "
+              "repository on every run by a differential run of the real LimitManager and of a real server on a loopback port.")
 LEVEL_NOTE = ("Trusted: Coq kernel, extraction (ExtrOcamlBasic) reduced by an in-kernel recheck sample, the hand transcription of "
-              "src/limiting.rs and of the limiter branches of src/lib.rs as validated by the differential run. Concurrent calls of register "
-              "and f64 rounding of reset_seconds are outside the model. No axioms.")
-TECHNIQUE = "Coq proof (refinement of the reference counter for all histories, invariants of the accept loop) + differential correspondence model vs. implementation (direct calls and a real loopback server)"
+              "src/limiting.rs and of the accept loop / limiter branches of src/lib.rs as validated by the differential run (an independent "
+              "Python reference checks the same outputs without the model). Concurrent calls of register and f64 rounding of reset_seconds "
+              "are outside the model. No axioms.")
+TECHNIQUE = "Coq proof (refinement of the reference counter for all histories incl. configuration changes, exact characterisation of the accept loop's exit) + differential correspondence model vs. implementation (direct calls and a real loopback server) + model-independent oracles"
+KERNEL_SAMPLE = 30
